@@ -152,7 +152,7 @@ def _str(*a):
     if len(a) == 1:
         f = type(x).__str__
         if f is object.__str__:
-            return repr(x)
+            return _repr(x)
         return f(x)
     return str(*a)
 
@@ -166,7 +166,13 @@ def _repr(x):
     if isinstance(x, list): return '[' + _join(', ', [_repr(i) for i in x]) + ']'
     if isinstance(x, tuple): return '(' + _join(', ', [_repr(i) for i in x]) + (',)' if len(x) == 1 else ')')
     if isinstance(x, dict): return '{' + _join(', ', [_repr(k) + ': ' + _repr(v) for k, v in x.items()]) + '}'
-    return repr(x)
+    if isinstance(x, (str, int, float, bytes, type(None), type)): return repr(x)
+    f = type(x).__repr__
+    if f is object.__repr__: return repr(x)
+    try:
+        return f(x)          # an instrumented __repr__ may legitimately return a symbolic / opaque string
+    except TypeError:
+        return OpaqueStr('repr of %s' % type(x).__name__)
 
 def _join(sep, items):
     items = list(items)
@@ -322,8 +328,8 @@ def sx_fmt(v, conv, spec):
     if spec == '':
         if isinstance(v, (SymStr, str)): return v
         if isinstance(v, (SymInt, SymBool)): return _str(v)
-        r = format(v, '')
-        return r
+        if isinstance(v, (str, int, float, bytes, type(None))): return format(v, '')
+        return _str(v)
     if is_sym(v) or is_sym(spec):
         raise Unsupported('format spec %r on symbolic value' % (spec,))
     return format(v, spec)
@@ -353,20 +359,52 @@ _STR_METHS = {'join', 'startswith', 'endswith', 'replace', 'split', 'rsplit', 'f
               'strip', 'lstrip', 'rstrip', 'partition', 'format'}
 
 def _format(fmt, *a, **k):
-    if k: raise Unsupported('str.format kwargs with symbolic')
-    out = ''; i = 0; n = 0
-    for m in _re.finditer(r'\{(\d*)\}|\{\{|\}\}', fmt):
-        out = out + fmt[i:m.start()]
-        if m.group(0) == '{{': out = out + '{'
-        elif m.group(0) == '}}': out = out + '}'
-        else:
-            idx = int(m.group(1)) if m.group(1) else n
-            n += 1
-            out = out + _str(a[idx])
-        i = m.end()
-    rest = _re.sub(r'\{(\d*)\}|\{\{|\}\}', '', fmt)
-    if '{' in rest or '}' in rest: raise Unsupported('format string %r' % fmt)
-    return out + fmt[i:]
+    """str.format with symbolic arguments: {} {n} {name} with (possibly nested) format specs"""
+    out = ''; i = 0; n = len(fmt); auto = 0
+
+    def lookup(field):
+        nonlocal auto
+        if field == '':
+            v = a[auto]; auto += 1; return v
+        if field.isdigit(): return a[int(field)]
+        if field in k: return k[field]
+        raise Unsupported('format field %r' % field)
+    while i < n:
+        ch = fmt[i]
+        if ch == '{':
+            if i + 1 < n and fmt[i + 1] == '{': out = out + '{'; i += 2; continue
+            depth = 1; j = i + 1
+            while j < n and depth:
+                if fmt[j] == '{': depth += 1
+                elif fmt[j] == '}': depth -= 1
+                j += 1
+            body = fmt[i + 1:j - 1]
+            field, _, spec = body.partition(':')
+            if '!' in field: raise Unsupported('format conversion')
+            if '{' in spec:
+                spec = _format(spec, *a, **k)
+                if not isinstance(spec, str): raise Unsupported('symbolic format spec')
+            out = out + _format_one(lookup(field), spec)
+            i = j; continue
+        if ch == '}':
+            if i + 1 < n and fmt[i + 1] == '}': out = out + '}'; i += 2; continue
+            raise ValueError("Single '}' encountered in format string")
+        out = out + ch; i += 1
+    return out
+
+
+def _format_one(v, spec):
+    if isinstance(v, OpaqueStr): return v
+    if not is_sym(v): return format(v, spec)
+    if isinstance(v, (SymStr,)) and spec == '': return v
+    if isinstance(v, SymEnum): return format(v.concretize(), spec)
+    if isinstance(v, (SymInt, SymBool)):
+        m = _re.fullmatch(r'#?0?(\d*)([dxobX]?)', spec)
+        if m and (m.group(1) in ('', '0')) and m.group(2) in ('', 'd'):
+            return _str(v)
+        return format(concretize_int(v, 300), spec)      # non-decimal or padded: fork over the (small) domain
+    raise Unsupported('format spec %r on %s' % (spec, type(v).__name__))
+
 
 def sx_meth(recv, name, /, *a, **k):
     if isinstance(recv, str) and name in _STR_METHS:
